@@ -122,12 +122,13 @@ class MemStream:
         self.pos += len(out)
         return _seq.make(_seq.BYTES, out)
 
-    def readline(self):
+    def readline(self, size=-1):
         from . import seq as _seq
         out = []
         items = self.items
         n = len(items)
-        while self.pos < n:
+        while self.pos < n and (size is None or size < 0 or
+                                len(out) < size):
             c = items[self.pos]
             out.append(c)
             self.pos += 1
